@@ -30,6 +30,7 @@ def rules(ctx):
     c114(ctx)
     c115(ctx)
     c116(ctx)
+    c117(ctx)
 
 
 def c115(ctx):
@@ -176,6 +177,33 @@ def c116(ctx):
             ctx.check(R, f, "bisect-by-held-keys-only", some, "the search interval is narrowed from the left only past a child whose last key was read",
                       "seek's binary search moves right of a probed child also when that child is empty: an empty child between two non-empty ones sends "
                       "the search past the child that holds the key ([A,B] [] [E,F]: seek(A) answers E)", pt=w)
+
+
+def c117(ctx):
+    R = "C11.7"
+    ctx.declare(R, "concatenating cursor: a child that becomes the current one is positioned by a seek of its own before it is stepped or read -- "
+                   "where an earlier pass left it (after its last entry, before its first) says nothing about this pass")
+    Cc = "<sst::concat_cursor::ConcatenatingCursor as sst::Cursor>::"
+    want = {"next": {"seek_to_first"}, "prev": {"seek_to_last"}, "seek_to_first": {"seek_to_first"}, "seek_to_last": {"seek_to_last"},
+            "seek": {"seek", "seek_to_last", "seek_to_first"}}
+    n = 0
+    for m in ("seek_to_first", "seek_to_last", "seek", "next", "prev"):
+        f = ctx.fn(R, Cc + m)
+        if not f:
+            continue
+        cc = cursor_calls(f)
+        rp = P.call_points(f, r"ConcatenatingCursor::reposition$")
+        n += len(rp)
+        seeks = [pt for name, pt in cc if name in want[m]]
+        other = [pt for name, pt in cc if name not in ("seek", "seek_to_first", "seek_to_last")] + \
+                [pt for name, pt in cc if name in ("seek", "seek_to_first", "seek_to_last") and name not in want[m]]
+        for p_ in rp:
+            q = P.reach(f, P.after(f, p_), other + P.return_points(f), avoid=set(seeks) | set(P.error_points(f)))
+            ctx.check(R, f, "entered-child-is-sought", q is None,
+                      "after reposition() the new current child is positioned with %s before anything else touches it" % "/".join(sorted(want[m])),
+                      "%s makes another child current and steps, reads or returns it without seeking it (%s) first: a child that an earlier pass ran off "
+                      "the end of stays exhausted, and all of its entries are skipped on this pass" % (m, "/".join(sorted(want[m]))), pt=p_, path=q)
+    ctx.floor(R, "concatenating cursor: reposition() sites", n, 6)
 
 
 def key_some_guard(f, pt, recv_names):
